@@ -16,6 +16,18 @@ RULE = ("the shipped solve sequence (thread mode) on random DCOPs with dpop|mgm2
 
 
 def generate(rng, tier):
+    if rng.random() < 0.25:
+        # resilient run with one removal event: pause / resume / repair callbacks
+        from . import resilient
+        case = resilient.gen_resilient(rng, tier, n_agents=(3, 5), per_agent=(1, 1),
+                                       algos=("dsa", "mgm", "adsa"), tight=False, k_range=(1, 2))
+        if case["algo"] == "adsa":
+            case["params"] = {"period": 0.2}
+        case["workload"] = "resilient"
+        case["departing"] = [rng.choice([a["name"] for a in case["agents"]])]
+        case["msg_delay"] = rng.choice([0.02, 0.05])
+        case["collect_moment"] = "value_change"
+        return case
     algo = rng.choice(["dpop", "mgm2", "maxsum", "adsa", "dsa"])
     case = gen.gen_dcop(
         rng, n_range=(2, 5), dom_range=(1, 3),
@@ -166,20 +178,37 @@ def execute(case, tape):
     cfg = orch.sim_config(tape)
     cfg["preempt_p"] = tape.pick([0.01, 0.03, 0.08])
     feats = dict(algo=case["algo"], collect=case["collect_moment"])
-    out["subspace"] = f"{case['algo']}/{case['collect_moment']}"
+    out["subspace"] = f"{case.get('workload', 'solve')}/{case['algo']}/{case['collect_moment']}"
     built = build.Built(case)
     result = {}
-    with orch.runtime(tape, cfg, max_time=case["timeout"] * 20) as sim:
+    with orch.runtime(tape, cfg, max_time=case.get("timeout", 10.0) * 20) as sim:
         mon = ThreadMonitor(sim)
         mon.install()
         try:
-            graph = built.graph(case["algo"])
-            mapping, _ = c22.compute_distribution(case, built, graph)
-            case = dict(case, distribution=mapping)
-            orchestrator, _, _, _ = orch.build_orchestrated(
-                case, built, collect_moment=case["collect_moment"], period=case["period"])
-            orchestrator.deploy_computations()
-            orchestrator.run(timeout=case["timeout"])
+            if case.get("workload") == "resilient":
+                from pydcop.dcop.scenario import Scenario, DcopEvent, EventAction
+                from . import resilient
+                sim.step_cost = 0.0005
+                sim.max_time = 200.0
+                graph, mapping, foot = resilient.prepare(case, built)
+                case = dict(case, distribution=mapping)
+                orchestrator, _, _, _ = orch.build_orchestrated(
+                    case, built, replication="dist_ucs_hostingcosts", delay=case["msg_delay"])
+                orchestrator.deploy_computations()
+                orchestrator.start_replication(case["k"])
+                if orchestrator.wait_ready():
+                    orchestrator.run(Scenario([
+                        DcopEvent("d1", delay=0.3),
+                        DcopEvent("e1", actions=[EventAction("remove_agent", agent=a)
+                                                 for a in case["departing"]])]), timeout=40.0)
+            else:
+                graph = built.graph(case["algo"])
+                mapping, _ = c22.compute_distribution(case, built, graph)
+                case = dict(case, distribution=mapping)
+                orchestrator, _, _, _ = orch.build_orchestrated(
+                    case, built, collect_moment=case["collect_moment"], period=case["period"])
+                orchestrator.deploy_computations()
+                orchestrator.run(timeout=case["timeout"])
             result["status"] = orchestrator.status
         except orch.threadsim.SimAbort as e:
             result["abort"] = str(e)
@@ -202,7 +231,7 @@ def execute(case, tape):
 
 
 RUN_TIMEOUT_S = 120
-BUDGET = {"quick": (1600, 75), "thorough": (40000, 900)}
+BUDGET = {"quick": (1000, 75), "thorough": (30000, 1200)}
 REAL = c22.REAL + ["pydcop.algorithms.{dpop,mgm2,maxsum,adsa,dsa}"]
 STUB = c22.STUB
 ASSUMPTIONS = ["thread mode only", "pre-emption at synchronisation points and traced line "
